@@ -8,6 +8,7 @@ import hashlib
 import json
 import os
 import random
+from concurrent.futures import ThreadPoolExecutor
 
 from vlib import core
 from vlib.core import Undecided, log
@@ -192,15 +193,37 @@ def split_by_run(rows):
 
 # ------------------------------------------------------------------------------------------
 def pubsub_part(ctx, st):
+    """Exhaustive TLC runs of the design spec go on in the background while schedules are
+    derived, executed on the real server and validated; joined before returning."""
+    main_ex, main_futs = ThreadPoolExecutor(max_workers=2), []
+    try:
+        res = pubsub_body(ctx, st, main_ex, main_futs)
+        for f in main_futs:
+            r1 = f.result()
+            st["states"] += r1.distinct
+            st["transitions"] += r1.generated
+        return res
+    finally:
+        main_ex.shutdown(wait=True)
+
+
+def pubsub_body(ctx, st, main_ex, main_futs):
     quick = ctx.tier == "quick"
     rng = random.Random(ctx.seed * 7919 + 19)
     reps = 40 if quick else 400
 
     # ---- 1. design spec, exhaustive; weakened variants must be refuted ---------------------
-    cfg = core.cfg_variant(ctx, "C19_pubsub.cfg", "C19_pubsub_run.cfg", {"MaxCalls": 4 if quick else 5})
-    r1 = ctx.tlc("C19_pubsub", cfg, must_pass=True, timeout=1500, workers=8, heap="6g", label="pubsub")
-    st["states"] += r1.distinct
-    st["transitions"] += r1.generated
+    from concurrent.futures import ThreadPoolExecutor
+    if quick:
+        mains = [("pubsub", {"MaxCalls": 4}, 8)]
+    else:
+        # measured: 4 calls x caps {0,1,2}: 1.4e6 states; 5 calls x the erroring event only: 2.7e6 states
+        # (5 calls x 3 events: 7.5e6 states, 14 min -- outside the budget)
+        mains = [("pubsub_caps012", {"MaxCalls": 4, "Caps": "{0, 1, 2}"}, 4),
+                 ("pubsub_5calls", {"MaxCalls": 5, "EventIds": "{2}", "CmdCap": 1}, 4)]
+    main_futs += [main_ex.submit(ctx.tlc, "C19_pubsub",
+                                 core.cfg_variant(ctx, "C19_pubsub.cfg", "C19_%s_run.cfg" % lab, consts),
+                                 must_pass=True, timeout=1700, workers=w, heap="6g", label=lab) for lab, consts, w in mains]
     attack = []
     from concurrent.futures import ThreadPoolExecutor
     weak = (("ErrorAbortsPublish", "ExactDelivery"), ("BlockOnFullBuffer", "NeverBlockedOnBuffered"),
@@ -246,7 +269,7 @@ def pubsub_part(ctx, st):
         acts = [to_json(g.nodes[n]["act"]) for n in nodes[1:]]
         s = sched_from_acts(acts, "graph", 3)
         if any(x["op"] == "Publish" for x in s["steps"]) and len({x.get("q") for x in s["steps"] if x["op"] == "Subscribe"}) > 1:
-            s["reps"] = 8 if quick else 30
+            s["reps"] = 8 if quick else 12
         before = len(scheds)
         add(s)
         ngraph += len(scheds) - before
@@ -280,7 +303,7 @@ def pubsub_part(ctx, st):
     nrand = 60 if quick else 400
     st["nrandom_ps"] = nrand
     for k in range(nrand):
-        add(random_sched(rng, k, reps if k % 3 == 0 else (5 if quick else 40)))
+        add(random_sched(rng, k, reps if k % 4 == 0 else (5 if quick else 30)))
 
     evals = eval_cases(rng, 400 if quick else 4000)
 
@@ -303,25 +326,23 @@ def pubsub_part(ctx, st):
     elif len(rows_ev) != len(evals):
         raise Undecided("harness executed %d of %d eval cases" % (len(rows_ev), len(evals)))
 
-    # ---- 4. trace validation; identical runs (same content, different map order unseen) once
+    # ---- 4. trace validation.  The harness writes a run only if its content differs from the
+    # runs already written for the same schedule (map order makes most repetitions identical)
     runs = split_by_run(rows_ps)
-    distinct, mult = {}, {}
-    for r in runs:
-        h = run_hash(r)
-        mult[h] = mult.get(h, 0) + 1
-        distinct.setdefault(h, r)
-    uniq_rows = [x for r in distinct.values() for x in r]
+    summary = []
+    sp = os.path.join(out, "summary.json")
+    if os.path.exists(sp):
+        with open(sp) as f:
+            summary = json.load(f)
+    nexec = sum(x["runs"] for x in summary) or len(runs)
     v1 = core.validate_traces(ctx, "TMPubSubTrace", rows_ev, label="evals", max_events=4000)
-    v2 = core.validate_traces(ctx, "TMPubSubTrace", uniq_rows, label="pubsub", max_events=1500)
-    per_sched = {}
-    for r in runs:
-        per_sched.setdefault(json.dumps([r[0]["tag"], r[0]["queries"], [(x["ev"], x["c"], x["q"], x["cap"], x["sid"], x["events"]) for x in r[1:] if not (x["ev"] in ("Consume", "Stop"))]], sort_keys=True), set()).add(run_hash(r))
-    st["evaluations"] += len(rows_ev) + len(rows_ps)
-    st["runs"] += v1["runs"] + len(runs)
+    v2 = core.validate_traces(ctx, "TMPubSubTrace", rows_ps, label="pubsub", max_events=1500, timeout=1500)
+    st["evaluations"] += len(rows_ev) + sum(len(scheds[x["sched"]]["steps"]) * x["runs"] for x in summary)
+    st["runs"] += v1["runs"] + nexec
     st["pubsub"] = {
-        "schedules": len(scheds), "runs_executed": len(runs), "distinct_runs_validated": len(distinct),
-        "events": len(rows_ps), "eval_cases": len(rows_ev),
-        "schedules_with_more_than_one_observed_outcome": sum(1 for v in per_sched.values() if len(v) > 1),
+        "schedules": len(scheds), "runs_executed": nexec, "distinct_runs_validated": len(runs),
+        "events_validated": len(rows_ps), "eval_cases": len(rows_ev),
+        "schedules_with_more_than_one_observed_outcome": sum(1 for x in summary if x["distinct"] > 1),
         "stuck_events": sum(1 for r in rows_ps if r.get("stuck")),
     }
     nontriv = set()
